@@ -16,7 +16,10 @@ import shutil
 
 REPO = os.environ.get("VERIF_REPO", "/repo")
 VERIF = os.path.normpath(os.path.join(os.path.dirname(os.path.abspath(__file__)), ".."))
-OUT = os.path.join(VERIF, "work", "c17")
+# the generated glue lives under work/ (git-ignored); a check against another working tree (VERIF_REPO) uses its own copy
+ALT = os.path.normpath(REPO) != "/repo"
+OUT = os.path.join(VERIF, "work", "c17_alt" if ALT else "c17")
+SUPPORT = os.path.join(VERIF, "work", "harness_c17_alt", "support") if ALT else os.path.join(VERIF, "harness_c17", "support")
 
 
 class GenError(Exception):
@@ -523,7 +526,7 @@ def gen_example(name):
             dep_lines.append('borsh = { version = "1.5.7", features = ["derive"] }')
         else:
             raise GenError("example program %s: dependency %s is not known to the generator" % (name, dn))
-    dep_lines.append('c17_support = { path = "%s/harness_c17/support" }' % VERIF)
+    dep_lines.append('c17_support = { path = "%s" }' % SUPPORT)
     cargo = "[package]\nname = \"%s\"\nversion = \"%s\"\nedition = \"2021\"\npublish = false\n\n[lib]\nname = \"%s\"\ncrate-type = [\"lib\"]\npath = \"src/lib.rs\"\n\n[features]%s\n[dependencies]\n%s\n\n[lints.rust]\nunexpected_cfgs = { level = \"allow\" }\n" % (
         pname, ver, pname, feats.rstrip() + "\n", "\n".join(dep_lines))
     write_if_changed(os.path.join(dst, "Cargo.toml"), cargo)
